@@ -407,8 +407,14 @@ async fn whoami(c: &tokio_postgres::Client) -> i64 {
     }
 }
 
-async fn wire_history(rng: &mut Rng) -> usize {
-    let srv = wire::Server::start();
+async fn wire_history(rng: &mut Rng, srv: &wire::Server) -> usize {
+    // one server per process (listening sockets and ports are scarce): this history's
+    // connections are the ones accepted from now on
+    let base = {
+        let mut st = srv.state.lock().unwrap();
+        st.replies.clear();
+        st.conns.len()
+    };
     let max = 1 + rng.below(3);
     let len = 5 + rng.below(18);
     let (method, mtok) = match rng.below(4) {
@@ -476,7 +482,8 @@ async fn wire_history(rng: &mut Rng) -> usize {
                 st.conns
                     .iter()
                     .enumerate()
-                    .flat_map(|(i, c)| c.queries.iter().filter(|q| q.0 > before).map(move |q| (q.0, i, q.1.clone())))
+                    .skip(base)
+                    .flat_map(|(i, c)| c.queries.iter().filter(|q| q.0 > before).map(move |q| (q.0, i - base, q.1.clone())))
                     .collect()
             };
             seen.sort();
@@ -491,6 +498,7 @@ async fn wire_history(rng: &mut Rng) -> usize {
             match r {
                 Ok(c) => {
                     let who = whoami(&c).await;
+                    let who = if who >= 0 { who - base as i64 } else { who };
                     if who < 0 {
                         println!("pwx a client that cannot talk to the server any more (closed: {}) was handed out", c.is_closed());
                         emit(inp, status(format!("res=ok:closed queries=[{}]", shown.join(","))), &mut hist);
@@ -537,7 +545,7 @@ async fn wire_history(rng: &mut Rng) -> usize {
             let pick_held = !open_held.is_empty() && (open_idle.is_empty() || rng.chance(50));
             if pick_held {
                 let who = open_held[rng.below(open_held.len())];
-                srv.kill(who);
+                srv.kill(base + who);
                 let c = &held.iter().find(|h| h.1 == who).unwrap().0;
                 for _ in 0..2000 {
                     if c.is_closed() {
@@ -549,7 +557,7 @@ async fn wire_history(rng: &mut Rng) -> usize {
                 emit(format!("pw kill {who}"), status("done".into()), &mut hist);
             } else if !open_idle.is_empty() {
                 let who = open_idle[rng.below(open_idle.len())];
-                srv.kill(who);
+                srv.kill(base + who);
                 closed.push(who);
                 let want = idle_ids.iter().filter(|i| closed.contains(i)).count();
                 for _ in 0..2000 {
@@ -577,12 +585,12 @@ async fn wire_history(rng: &mut Rng) -> usize {
             // mostly from a small set of keys, so that hits are common
             let q = QUERIES[if rng.chance(60) { rng.below(2) } else { rng.below(QUERIES.len()) }];
             let types = &sets[if rng.chance(60) { 1 + rng.below(2) } else { rng.below(sets.len()) }];
-            let parses_before = srv.state.lock().unwrap().conns[who].parses.len();
+            let parses_before = srv.state.lock().unwrap().conns[base + who].parses.len();
             let c = &held[idx].0;
             if rng.chance(20) {
                 // two concurrent prepares of the same key on the same client
                 let (a, b) = tokio::join!(c.prepare_typed_cached(q, types), c.prepare_typed_cached(q, types));
-                let rt = srv.state.lock().unwrap().conns[who].parses.len() - parses_before;
+                let rt = srv.state.lock().unwrap().conns[base + who].parses.len() - parses_before;
                 // which of the two inserts came last is the scheduler's choice: observe it (the
                 // statement that stayed in the cache) and hand it to the model as an input
                 let mut order = "01";
@@ -599,7 +607,7 @@ async fn wire_history(rng: &mut Rng) -> usize {
                     let _ = n;
                     if c.execute(&kept, &refs).await.is_ok() {
                         let st = srv.state.lock().unwrap();
-                        let log = &st.conns[who];
+                        let log = &st.conns[base + who];
                         if let Some(kidx) = log.binds.last().and_then(|name| log.parses.iter().position(|p| &p.0 == name)) {
                             if rt == 2 && kidx == parses_before {
                                 order = "10";
@@ -633,7 +641,7 @@ async fn wire_history(rng: &mut Rng) -> usize {
                     let refs: Vec<&(dyn tokio_postgres::types::ToSql + Sync)> = params.iter().map(|b| b.as_ref()).collect();
                     let ex = c.execute(&stmt, &refs).await;
                     let st = srv.state.lock().unwrap();
-                    let log = &st.conns[who];
+                    let log = &st.conns[base + who];
                     let rt = log.parses.len() - parses_before;
                     // which statement did the server see bound on this connection?
                     let ident = match (ex.is_ok(), log.binds.last()) {
@@ -716,7 +724,7 @@ fn arg<'a>(args: &'a [String], k: &str) -> Option<&'a str> {
 }
 
 fn main() {
-    std::panic::set_hook(Box::new(|_| {}));
+    std::panic::set_hook(Box::new(|i| { if std::env::var("HVERIF_DEBUG").is_ok() { eprintln!("panic: {i}"); } }));
     let args: Vec<String> = std::env::args().collect();
     let mode = args.get(1).map(|s| s.as_str()).unwrap_or("");
     let seed: u64 = arg(&args, "--seed").and_then(|s| s.parse().ok()).unwrap_or(1);
@@ -772,9 +780,10 @@ fn main() {
         }
         "wire" => {
             let rt = tokio::runtime::Builder::new_current_thread().enable_all().build().unwrap();
+            let srv = wire::Server::start();
             let mut done = 0usize;
             while done < n {
-                done += rt.block_on(wire_history(&mut r));
+                done += rt.block_on(wire_history(&mut r, &srv));
             }
         }
         "probe" => {
@@ -860,6 +869,20 @@ pub mod wire {
     pub struct Server {
         pub port: u16,
         pub state: Arc<Mutex<State>>,
+        stop: Arc<std::sync::atomic::AtomicBool>,
+    }
+
+    impl Drop for Server {
+        fn drop(&mut self) {
+            // let the accept thread go (and with it the listening socket), hang up on everybody
+            self.stop.store(true, std::sync::atomic::Ordering::SeqCst);
+            let _ = TcpStream::connect(("127.0.0.1", self.port));
+            for c in self.state.lock().unwrap().conns.iter() {
+                if let Some(s) = c.sock.as_ref() {
+                    let _ = s.shutdown(Shutdown::Both);
+                }
+            }
+        }
     }
 
     fn msg(tag: u8, body: &[u8]) -> Vec<u8> {
@@ -1021,8 +1044,13 @@ pub mod wire {
             let port = l.local_addr().unwrap().port();
             let state: Arc<Mutex<State>> = Arc::default();
             let st = state.clone();
+            let stop: Arc<std::sync::atomic::AtomicBool> = Arc::default();
+            let stop2 = stop.clone();
             let _ = std::thread::spawn(move || {
                 for s in l.incoming().flatten() {
+                    if stop2.load(std::sync::atomic::Ordering::SeqCst) {
+                        break;
+                    }
                     let _ = s.set_nodelay(true);
                     let idx = {
                         let mut g = st.lock().unwrap();
@@ -1035,7 +1063,7 @@ pub mod wire {
                     });
                 }
             });
-            Server { port, state }
+            Server { port, state, stop }
         }
         /// the server hangs up on connection `idx`
         pub fn kill(&self, idx: usize) {
